@@ -35,6 +35,7 @@ def run(ctx):
     prog = ctx.prog
     tool = prog.func("command_line.signals_to_torch_feat_dir")
     cfg = CFG(tool.node)
+    ctx.rule(membership_over_text, tool)
     info = manifest_sites(ctx, tool, cfg)  # anchors: an AnalysisError here aborts the whole check (exit 2)
     ctx.rule(save_before_ack, tool, cfg, info)
     ctx.rule(acknowledged_kept, tool, cfg, info)
@@ -46,6 +47,38 @@ def run(ctx):
     ctx.rule(cc.seed_inputs_deterministic, "R-C10-seed-process-independent", tool, prog.cls("command_line._FeatureProcessorDataset"))
     ctx.rule(reseed_first)
     ctx.rule(order, tool)
+
+
+def membership_over_text(ctx, tool, R="R-C10-manifest-exact"):
+    """`utt in <text of a file>` is a substring test: an utterance whose id occurs inside a listed id (utt1 in utt12) counts as
+    done although it never was.  The text a `.read()` returns has to be split into lines before ids are looked up in it."""
+    what = "utterances are looked up among the manifest's lines, not inside its text"
+
+    def text_valued(e, depth=0):
+        if depth > 4:
+            return None
+        if isinstance(e, ast.Call) and isinstance(e.func, ast.Attribute):
+            if e.func.attr in ("read", "read_text") and not e.args:
+                return e
+            if e.func.attr in ("strip", "rstrip", "lstrip", "lower", "upper", "decode", "replace"):
+                return text_valued(e.func.value, depth + 1)
+        if isinstance(e, ast.Name):
+            vals = [n.value for n in tool.body_nodes() if isinstance(n, ast.Assign) and any(astq.is_name(t, e.id) for t in n.targets)]
+            vals += [n.value for n in tool.body_nodes() if isinstance(n, ast.AugAssign) and astq.is_name(n.target, e.id)]
+            hits = [text_valued(v, depth + 1) for v in vals]
+            if vals and all(h is not None for h in hits):
+                return hits[0]
+        return None
+    n = 0
+    for c in tool.body_nodes():
+        if isinstance(c, ast.Compare) and len(c.ops) == 1 and isinstance(c.ops[0], (ast.In, ast.NotIn)):
+            n += 1
+            src = text_valued(c.comparators[0])
+            if src is not None:
+                ctx.bad(R, tool, c, "`%s` looks the left operand up inside the text returned by `%s`: a substring test, so an utterance whose id occurs inside "
+                        "another listed id (utt1 in utt12, 7 in spk7-a) is taken as already done and silently skipped on resume"
+                        % (astq.text(c)[:60], astq.text(src)[:50]), what, robust=True)
+    ctx.ok(R, tool.loc(), what, "%d membership test(s) inspected" % n)
 
 
 def _is_manifest(n):
